@@ -134,6 +134,7 @@ class World:
         self.handler_intervals = {}
         self.shield_on_cycle = {}      # id(mirror) -> cycle at which its shield was switched on
         self.native_stack = {}     # task -> list of callables telling whether that native construct has fired
+        self.start_wait_cut = set()    # tasks natively cancelled while start() was already waiting for its child
 
     # ---- helpers
     def cycle(self):
@@ -210,6 +211,13 @@ class World:
                 ci.native_exempt = self.in_cancel_handler_at(ci.task, self.loop.time()) or any(
                     gi.mirror.host is ci.task and not gi.exited and getattr(gi, "body_exc", None) is not None
                     and any(is_anyio_cancel(e) for e in leaves(gi.body_exc)) for gi in self.groups.values())
+                op = self.open_ops.get(ci.task)
+                cm = self.cur.get(ci.task)
+                if op is not None and op[0] == "start" and cm is not None and cm.eff():
+                    # the caller of start() has already been cancelled and start() is waiting (shielded) for the
+                    # child to finish: a native Task.cancel() cuts through any shield, so "the child has terminated
+                    # before start() re-raises" cannot be demanded here (the statement speaks of cancelled scopes)
+                    self.start_wait_cut.add(ci.task)
                 waiter = getattr(ci.task, "_fut_waiter", None)
                 if waiter is not None and waiter.done():
                     # asyncio itself merges this request into the cancellation already under way (the task wakes up
@@ -841,7 +849,7 @@ class World:
             raise
         except BaseException as e:
             site["outcome"] = ("raised", e)
-            if ci.task is not None and ci.ended is None:
+            if ci.task is not None and ci.ended is None and task not in self.start_wait_cut:
                 self.bad("c07:start-raised-before-child-ended", type(e).__name__,
                          f"start() of {cname} raised {e!r} at cycle {self.cycle()} while the child is still running")
             if isinstance(e, asyncio.CancelledError):
@@ -855,7 +863,7 @@ class World:
                         self.bad("c07:post-started-failure-routed-to-start", "", f"child {cname}")
                     elif not group_cancelled_before and gi.mirror.real.cancel_called \
                             and gi.name not in self.harness_cancelled and getattr(gi, "body_exc", None) is None \
-                            and not any(c is not ci and c.ended is not None and c.ended[0] == "raise"
+                            and not any(c is not ci and (c.native_cancelled or (c.ended is not None and c.ended[0] == "raise"))
                                         for c in gi.children.values()):
                         self.bad("c07:group-cancelled-by-prestart-failure", "",
                                  f"group {gi.name} was cancelled on account of child {cname}, which failed before started()")
@@ -1036,7 +1044,8 @@ def run_program(case):
         for gi, ci in w.prestart_failures:
             # the group must not have been cancelled on account of a child that failed before started():
             # judged only when nothing else can have cancelled it
-            other = any(c is not ci and c.ended is not None and c.ended[0] == "raise" for c in gi.children.values())
+            other = any(c is not ci and (c.native_cancelled or (c.ended is not None and c.ended[0] == "raise"))
+                        for c in gi.children.values())     # (a natively cancelled child cancels its group as well)
             if gi.mirror.real.cancel_called and not other and getattr(gi, "body_exc", None) is None \
                     and gi.name not in w.harness_cancelled:
                 w.bad("c07:group-cancelled-by-prestart-failure", "", f"group {gi.name}, child {ci.name}")
@@ -1072,9 +1081,11 @@ def run_program(case):
         run_on(case["config"], main, budget=6000)
     except Deadlock as e:
         out.bad("c03:hang", "deadlock", repr(e))
+        out.bad("hang", "deadlock", repr(e))       # (the same verdict for the checks that do not own the c03 rules)
         err = "deadlock"
     except BudgetExceeded as e:
         out.bad("c03:hang", "busy-loop", repr(e))
+        out.bad("hang", "busy-loop", repr(e))
         err = "busy"
     except asyncio.CancelledError:
         err = "native-cancel-of-main"
